@@ -151,8 +151,10 @@ func (sw *SW) opAddBlobber(st sim.Step) {
 	wp := pick64([]int64{1e7, 1e8, 1e9, 5e9, 1e10}, st.Int(1, 2))
 	rp := pick64([]int64{0, 1e7, 1e9, 5e9}, st.Int(2, 0))
 	charge := []float64{0, 0.1, 0.3, 0.5}[abs(st.Int(3, 1))%4]
+	// kind of blobber: 0..5 public, 6 restricted (owners need its auth ticket), 7 enterprise (after the electra fork)
+	restricted, enterprise := abs(st.Int(4, 0))%8 == 6, abs(st.Int(4, 0))%8 == 7
 	in := map[string]any{"id": b.ID, "url": b.URL, "capacity": cap, "terms": map[string]any{"read_price": rp, "write_price": wp},
-		"stake_pool_settings": spSettings(b, charge), "is_restricted": false, "is_enterprise": false}
+		"stake_pool_settings": spSettings(b, charge), "is_restricted": restricted, "is_enterprise": enterprise}
 	o := sw.call(b.ID, b.PK, "add_blobber", in, 0)
 	if o.Class == ledger.Success {
 		sw.probeFirst("add_blobber")
@@ -229,6 +231,17 @@ func (sw *SW) opNewAlloc(st sim.Step) {
 	regs := sw.registeredBlobbers(vw)
 	data := int(1 + abs(st.Int(0, 1))%4)
 	parity := int(1 + abs(st.Int(1, 1))%3)
+	if abs(st.Int(6, 0))%5 == 3 {
+		sw.W.Tr.Fault("alloc_may_want_more_shards_than_blobbers")
+	} else {
+		// a sensible client asks for no more shards than there are blobbers
+		for data+parity > len(regs) && parity > 1 {
+			parity--
+		}
+		for data+parity > len(regs) && data > 1 {
+			data--
+		}
+	}
 	n := data + parity + int(abs(st.Int(4, 0))%3)
 	var ids []string
 	if len(regs) > 0 {
@@ -290,7 +303,14 @@ func (sw *SW) opNewAlloc(st sim.Step) {
 	default:
 		value = int64(est) + zcn
 	}
+	// every listed blobber hands the owner an auth ticket (its signature over the
+	// owner's id); only restricted / enterprise blobbers are asked for it
 	tickets := make([]string, len(ids))
+	for i, id := range ids {
+		if bc := sw.actorByID(id); bc != nil && abs(st.Int(6, 0))%7 != 6 {
+			tickets[i], _ = bc.Keys.Sign(c.ID)
+		}
+	}
 	rmax, wmax := uint64(7e10), uint64(7e10)
 	if abs(st.Int(6, 0))%5 == 4 {
 		wmax = 1e8 // narrow write price range: some blobbers do not match
@@ -345,6 +365,9 @@ func (sw *SW) opUpdateAlloc(st sim.Step) {
 		}
 		if add != "" {
 			req["add_blobber_id"] = add
+			if bc := sw.actorByID(add); bc != nil && av != nil {
+				req["add_blobber_auth_ticket"], _ = bc.Keys.Sign(av.Owner)
+			}
 			if st.Int(5, -1) >= 0 && av != nil && len(av.BAs) > 0 {
 				rem := av.BAs[st.Int(5, 0)%int64(len(av.BAs))].BlobberID
 				req["remove_blobber_id"] = rem
@@ -771,8 +794,7 @@ func (sw *SW) opClockTo(st sim.Step) {
 	}
 	target := common.Timestamp(av.Expiration + st.Int(2, 1))
 	if target > sw.W.Now {
-		sw.W.Tr.SimTime += float64(target - sw.W.Now)
-		sw.W.Now = target
+		sw.W.Advance(int64(target - sw.W.Now))
 		sw.W.Tr.Event("clock_to expiry%+d", st.Int(2, 1))
 	}
 }
